@@ -387,7 +387,7 @@ func runStress(cfg stressCfg) (hist []hop, er string, fail string, detail string
 		return drain()
 	}
 	// consumers drain; those that loop end up blocked in Fetch, one-shot consumers exit
-	deadline := time.Now().Add(2500 * time.Millisecond)
+	deadline := time.Now().Add(5 * time.Second)
 	stable := 0
 	last := -1
 	for {
